@@ -61,6 +61,28 @@ Proof.
 Qed.
 Print Assumptions C02_companion_consumer_segmentation.
 
+(* ---- data stream channel with the layer above as a parameter (DataStreamChannel._process_payload
+   calls listener.handle_protobuf inside try/except for every protobuf message of a frame): for every
+   listener behaviour the protobuf messages handed over - with the outcome of each, including the
+   ones it raised on -, the replies owed to `sync` frames and the buffer do not depend on the
+   segmentation.  The only failures left are those of ds_p1 itself (size < 32, undecodable plist
+   structure): a raising listener is not one of them. *)
+Theorem C02_datastream_consumer_segmentation : forall handler_ok pbs_of consumer chunks,
+  no_failure (run (ds_p1 handler_ok) tt (concat chunks)) ->
+  feeds (dsc_p1 handler_ok pbs_of consumer) tt [] chunks = run (dsc_p1 handler_ok pbs_of consumer) tt (concat chunks) /\
+  no_failure (run (dsc_p1 handler_ok pbs_of consumer) tt (concat chunks)).
+Proof.
+  intros ok pbs c chunks NF.
+  assert (NF' : no_failure (run (dsc_p1 ok pbs c) tt (concat chunks))).
+  { intros ms e H. unfold run in *.
+    destruct (drain_map_failed (ds_p1 ok) (ds_consume pbs c) _ _ _ _ _ H) as [ms' E]. eapply NF. exact E. }
+  split; [|exact NF'].
+  exact (feed_chunks _ _ _ _ _ (map_stable _ _ _ (ds_p1 ok) _ (ds_stable ok))
+           (map_progress _ _ _ (ds_p1 ok) _ (ds_progress ok))
+           (map_failpfx _ _ _ (ds_p1 ok) _ (ds_failpfx ok)) chunks tt [] eq_refl NF').
+Qed.
+Print Assumptions C02_datastream_consumer_segmentation.
+
 (* ---- HAP session (HAPSession.decrypt): if the stream read at once raises nothing (every block
    authentic), any segmentation yields the same plaintext pieces, counter and leftover bytes. *)
 Theorem C02_hap_session_segmentation : forall dec c chunks,
@@ -202,6 +224,18 @@ Proof.
   intros dec ok. intros. apply (C02_hap_channel_segmentation _ _ _ true dec (ds_stable ok) (ds_progress ok) (ds_failpfx ok)). assumption.
 Qed.
 Print Assumptions C02_datastream_channel.
+
+(* DataStreamChannel.data_received end to end with the listener as a parameter *)
+Theorem C02_datastream_channel_consumer : forall dec handler_ok pbs_of consumer chunks c ms c' ra sb' rb,
+  lwhole _ _ _ (hap_p1 dec) (dsc_p1 handler_ok pbs_of consumer) c [] tt [] (concat chunks) = LOut ms c' ra sb' rb ->
+  lfeeds _ _ _ (hap_p1 dec) (dsc_p1 handler_ok pbs_of consumer) true c [] tt [] chunks = LOut ms c' ra sb' rb.
+Proof.
+  intros dec ok pbs cons. intros.
+  apply (C02_hap_channel_segmentation _ _ _ true dec
+           (map_stable _ _ _ (ds_p1 ok) _ (ds_stable ok)) (map_progress _ _ _ (ds_p1 ok) _ (ds_progress ok))
+           (map_failpfx _ _ _ (ds_p1 ok) _ (ds_failpfx ok))). assumption.
+Qed.
+Print Assumptions C02_datastream_channel_consumer.
 
 (* EventChannel.data_received (hypothesis on the strict parser, conclusion about the code as written) *)
 Theorem C02_event_channel : forall dec utf8_ok first_ok chunks c ms c' ra sb' rb,
@@ -430,4 +464,14 @@ Proof. split; vm_compute; reflexivity. Qed.
 Example C02_ex_mrp_consumer_raises :
   run (mrpc_p1 (fun _ d => Some d) (fun _ => true) (fun d => negb (bytes_beq d [7])) ) None [1; 7; 1; 8; 1; 9]
   = Out [MHanded [7] false; MHanded [8] true; MHanded [9] true] None [].
+Proof. vm_compute. reflexivity. Qed.
+
+(* two coalesced sync frames, the listener raises on the protobuf of the first: both are handed over
+   and both are answered *)
+Example C02_ex_datastream_consumer_raises :
+  let hdr := fun n => [0;0;0;33] ++ SYNC ++ repeat 0 8 ++ repeat 2 4 ++ [0;0;0;0;0;0;0;n] ++ [0;0;0;0] in
+  map (fun x => (dsn_handed x, dsn_reply x))
+      (match run (dsc_p1 (fun _ => true) (fun pl => [pl]) (fun pb => negb (bytes_beq pb [7]))) tt (hdr 1 ++ [7] ++ hdr 2 ++ [8])
+       with Out ms _ _ => ms | _ => [] end)
+  = [([([7], false)], true); ([([8], true)], true)].
 Proof. vm_compute. reflexivity. Qed.
